@@ -173,6 +173,38 @@ theorem register_effective (reg : Registry) (e : Entry) (m : Msg) :
   · intro h; simp [allowed, hasP, h, hs]
   · intro h; simp [allowed, hasP, registered, notAlias, h, hs]
 
+/-! ### transactions of several messages: rollback -/
+
+/-- a transaction in which some message fails leaves the registry exactly as it was, whatever
+    registry edits preceded the failing message in the same transaction; so does a simulation -/
+theorem failed_tx_leaves_registry (reg : Registry) (items : List TxItem) (sim : Bool)
+    (h : runItems reg items = none ∨ sim = true) : deliverTx reg items sim = reg := by
+  unfold deliverTx
+  rcases h with h | h
+  · rw [h]
+  · cases runItems reg items <;> simp [h]
+
+/-- hence the message after a rolled-back transaction [edit, failing message] is decided by the
+    registry from BEFORE that transaction: not accepted if that registry does not allow it -/
+theorem rolled_back_edit_has_no_effect (reg : Registry) (e : Edit) (fs : List Fact) (mfail : Msg)
+    (k : Kind) (m : Msg) (bodyOk : Bool)
+    (hfail : evalFacts (applyEdit reg e) mfail fs = false)
+    (hno : allowed reg k m = false) :
+    txStep (deliverTx reg [.edit e, .msg fs mfail true] false) (.msg (generated k).guards m bodyOk) = none := by
+  have h1 : deliverTx reg [.edit e, .msg fs mfail true] false = reg := by
+    apply failed_tx_leaves_registry
+    left
+    simp [runItems, txStep, hfail]
+  rw [h1]
+  simp [txStep, table_decides, hno]
+
+/-- inside one transaction an edit does decide the following messages of that transaction -/
+theorem edit_decides_rest_of_tx (reg : Registry) (e : Edit) (k : Kind) (m : Msg) :
+    runItems reg [.edit e, .msg (generated k).guards m true] =
+      if allowed (applyEdit reg e) k m then some (applyEdit reg e) else none := by
+  simp [runItems, txStep, table_decides]
+  cases allowed (applyEdit reg e) k m <;> simp
+
 /-! ### the hidden swap of an asymmetric add -/
 
 /-- `CalculatePoolUnits`' swap status for an add of (r native, a external) to depths (R, A), all
@@ -219,6 +251,9 @@ example : allowed exReg .swap { exMsg with sent := "rowan", received := "ceth" }
 example : allowed exReg .transfer exMsg = false := by decide       -- xeth is an alias denomination
 example : allowed exReg .transfer { exMsg with token := "cusdc" } = true := by decide
 example : allowed (applyEdit exReg (.deregister "cusdc")) .createPool exMsg = false := by decide
+/-- a rolled-back [Deregister cusdc, failing message] leaves cusdc usable; a committed one does not -/
+example : deliverTx exReg [.edit (.deregister "cusdc"), .msg (table .swap).guards exMsg true] false = exReg := by decide
+example : allowed (deliverTx exReg [.edit (.deregister "cusdc")] false) .createPool exMsg = false := by decide
 example : swapStatusOf 1000 1000 10 5 = .sellNative := by decide
 example : swapStatusOf 1000 1000 5 10 = .buyNative := by decide
 
